@@ -298,6 +298,9 @@ def _register(ck, r, idx):
         ck.violation(key + "/no-output", f"{r['site']} {r['sub']}: the prescription produced no kernel ({r['err'][:160]})", dict(r["wit"], error=r["err"]))
         return
     tol = 0.0 if r["site"] == "quark-number" else TOL
+    if r["defect"] is not None and np.isfinite(r["defect"]):
+        md = ck.extra.setdefault("max_defect_by_site", {})
+        md[r["site"]] = max(md.get(r["site"], 0.0), float(r["defect"]))
     if r["defect"] is not None and np.isfinite(r["defect"]) and r["defect"] <= tol:
         ck.ok()
     else:
